@@ -445,6 +445,12 @@ pub fn fault_runs(acc: &mut ShardResult, prog: &Prog, func: &Function, args: &[A
             }
             acc.nontrivial(fnv_str(&format!("{}|{}|{}|{}", fnv_str(case_id), occ.pc, occ.kind, fault.class)));
             acc.set_add("hint_kinds_mutated", &occ.kind);
+            if acc.samples.len() < 2 && fault.class != "plus1" {
+                acc.sample(json!({"run": case_id, "hint": occ.kind, "pc": occ.pc, "occurrence": occ.index, "fault": fault.class,
+                    "honest_outputs": occ.outputs.iter().map(|(_, v)| v.as_ref().map(|x| x.to_string())).collect::<Vec<_>>(),
+                    "faulty_writes": fault.writes.iter().map(|(i, v)| format!("out{i}={v}")).collect::<Vec<_>>(),
+                    "outcome": format!("{obs:?}").chars().take(100).collect::<String>(), "honest_result": short(&honest_obs)}));
+            }
             match &obs {
                 Obs::NotComparable(why) if why.contains("VmError") => acc.count(&format!("{key}.rejected_by_vm"), 1),
                 o if *o == honest_obs => {
